@@ -45,7 +45,8 @@ From RW Require Import Fmt.Codec Fmt.Frame Wal.Model Wal.Spec Wal.Hist Wal.Metri
    encoded sizes of the entries of accepted non-empty batches / of the entries found,
    truncations = number of entries each accepted DeleteRange removes from the
    specification log (head if mn <= first, else tail).  The four uint64 sums are
-   equal modulo 2^64 (counters_show); segment_rotations is not specified. *)
+   equal modulo 2^64 (counters_show).  The tenth counter, segment_rotations, has its
+   own truth (the persisted-metadata history): C20_rotations_true below. *)
 Theorem C20_counters_true :
   forall c os s0, cfg_ok c -> Forall sop_ok os -> short_enough os -> initial c = Some s0 ->
   counters_show (e_m (ss_env (snd (run_model c s0 os)))) (true_totals os).
@@ -85,6 +86,101 @@ Example C20_ex_counters :
                 m_head_trunc m, m_tail_trunc m, m_stable_gets m, m_stable_sets m, 2 <=? m_rotations m)
   | None => (0, 0, 0, 0, 0, 0, 0, 0, 0, false)
   end = (240, 8, 6, 30, 3, 6, 1, 1, 2, true).
+Proof. vm_compute. reflexivity. Qed.
+
+(* ---- segment_rotations --------------------------------------------------------
+   Truth: the persisted-metadata history (Wal/MetricsSpec.v, is_rotation /
+   trace_rotations).  The I/O trace of the run holds every MetaStore commit with the
+   state it persisted; replaying the trace gives the previously persisted state and the
+   segment files at that moment.  A commit is a ROTATION when it keeps all segments but
+   the last, turns the last one -- the unsealed tail t -- into a sealed segment of the
+   same identity whose MaxIndex is the last entry t's file holds, and appends one new
+   empty unsealed tail with the next id and BaseIndex = that MaxIndex + 1.  Nothing in
+   this looks at the counter's increment site.  The other committers are told apart and
+   the theorem below could not hold otherwise: head truncations, the reset of an empty
+   first segment and tail truncations that drop whole segments never make the list
+   longer (C20_rotation_longer); a tail truncation inside the tail commits the same
+   shape but seals the tail BELOW the last entry of its file (C20_ex_tail_cut); Open
+   completing an interrupted rotation commits exactly a rotation, but wal.go counts
+   segment_rotations in rotateSegmentLocked only -- Open's commits belong to no
+   lifetime, the metrics collector is per Open, and so the statement is per lifetime.
+
+   For every sequential history: the rotation counter of the current lifetime (the
+   model keeps one set of counters for the whole history, so: the difference to its
+   value when the last Close;Open returned; for a history without Close;Open that
+   value is 0) equals the number of rotations among the actions the trace records
+   after that Open. *)
+From RW Require Import Wal.RotFacts.
+Theorem C20_rotations_true :
+  forall c os s0, cfg_ok c -> Forall sop_ok os -> short_enough os -> initial c = Some s0 ->
+  let s1 := snd (run_model c s0 (fst (last_life os))) in     (* the state the last Open returned *)
+  let s := snd (run_model c s0 os) in
+  m_rotations (e_m (ss_env s)) =
+  m_rotations (e_m (ss_env s1)) + trace_rotations (length (e_acts (ss_env s1))) (e_acts (ss_env s)).
+Proof. exact rotations_true. Qed.
+Print Assumptions C20_rotations_true.
+
+(* the same for any stretch of calls without a Close;Open, wherever it starts *)
+Theorem C20_rotations_stretch :
+  forall c os1 os2 s0, cfg_ok c -> Forall sop_ok (os1 ++ os2) -> short_enough (os1 ++ os2) ->
+  initial c = Some s0 -> Forall (fun o => o <> OReopen) os2 ->
+  let s1 := snd (run_model c s0 os1) in
+  let s2 := snd (run_model c s0 (os1 ++ os2)) in
+  m_rotations (e_m (ss_env s2)) =
+  m_rotations (e_m (ss_env s1)) + trace_rotations (length (e_acts (ss_env s1))) (e_acts (ss_env s2)).
+Proof. exact rotations_segment. Qed.
+Print Assumptions C20_rotations_stretch.
+
+(* a rotation makes the persisted segment list exactly one longer *)
+Theorem C20_rotation_longer :
+  forall d old new, is_rotation d old new = true -> length (ps_segs new) = S (length (ps_segs old)).
+Proof. exact is_rotation_len. Qed.
+Print Assumptions C20_rotation_longer.
+
+(* non-vacuity.  (counter now, counter when the last Open returned, rotations the trace
+   shows since then, number of actions, number of actions at that Open) *)
+Definition m_rot_report (c : cfg) (os : list sop) : N * N * N * N * N :=
+  match initial c with
+  | Some s0 => let s := snd (run_model c s0 os) in
+               let s1 := snd (run_model c s0 (fst (last_life os))) in
+               (m_rotations (e_m (ss_env s)), m_rotations (e_m (ss_env s1)),
+                trace_rotations (length (e_acts (ss_env s1))) (e_acts (ss_env s)),
+                llen (e_acts (ss_env s)), llen (e_acts (ss_env s1)))
+  | None => (0, 0, 0, 0, 0)
+  end.
+(* m_ops: both rotations happen before the Close;Open, none after it *)
+Example C20_ex_rotations :
+  m_rot_report {| c_seg_size := 128; c_codec := 1 |} m_ops = (2, 2, 0, 35, 23) /\
+  m_rot_report {| c_seg_size := 128; c_codec := 1 |} (firstn 14 m_ops) = (2, 0, 2, 23, 3).
+Proof. vm_compute. split; reflexivity. Qed.
+(* every store seals its segment; the Close;Open comes while a rotation is pending and
+   Open completes it: over the whole trace 7 commits have the shape of a rotation, the
+   implementation counted 4 + 2, and 2 is what the trace shows since the last Open *)
+Definition m_ops2 : list sop :=
+  [ OStore [m_log 5; m_log 6]; OStore [m_log 7]; OStore [m_log 8]; OStore [m_log 9]; OStore [m_log 10];
+    OStore [m_log 11]; ODelete 11 11; OStore [m_log 11]; OStore [m_log 12]; OStore [m_log 13];
+    OStore [m_log 14]; OReopen; OStore [m_log 15]; OStore [m_log 16]; OStore [m_log 17]; OStore [m_log 18];
+    ODelete 0 12; ODelete 17 20 ].
+Example C20_ex_rotations2 :
+  m_rot_report {| c_seg_size := 128; c_codec := 1 |} m_ops2 = (6, 4, 2, 60, 39) /\
+  (match initial {| c_seg_size := 128; c_codec := 1 |} with
+   | Some s0 => trace_rotations 0 (e_acts (ss_env (snd (run_model {| c_seg_size := 128; c_codec := 1 |} s0 m_ops2))))
+   | None => 0
+   end) = 7.
+Proof. vm_compute. split; reflexivity. Qed.
+(* a tail truncation inside the tail segment seals it and adds a new tail, like a
+   rotation -- but at index 6 while the file holds 5..7: not counted, by either side *)
+Example C20_ex_tail_cut :
+  let c := {| c_seg_size := 4096; c_codec := 1 |} in
+  (match initial c with
+   | Some s0 => let s := snd (run_model c s0 [ OStore [m_log 5; m_log 6; m_log 7]; ODelete 7 9 ]) in
+                (m_rotations (e_m (ss_env s)), trace_rotations 0 (e_acts (ss_env s)),
+                 match dk_meta (e_disk (ss_env s)) with
+                 | Some ps => map (fun x => (si_base x, si_max x, si_sealed x)) (ps_segs ps)
+                 | None => []
+                 end)
+   | None => (9, 9, [])
+   end) = (0, 0, [(5, 6, true); (7, 0, false)]).
 Proof. vm_compute. reflexivity. Qed.
 (* END dynamic half *)
 (* ======================================================================== *)
